@@ -6,17 +6,14 @@ Exit codes: 0 property held on everything explored; 1 VIOLATION printed;
 2 harness error (never prints VIOLATION, never exits 0).
 """
 import argparse
-import faulthandler
 import hashlib
 import importlib
 import json
-import multiprocessing
 import os
 import subprocess
 import sys
 import time
 import traceback
-from concurrent.futures import ProcessPoolExecutor, as_completed
 
 VERIF = os.path.dirname(os.path.dirname(os.path.abspath(__file__)))
 PROPS = {"C06": "sim.props.c06", "C12": "sim.props.c12", "C19": "sim.props.c19", "C20": "sim.props.c20"}
@@ -84,25 +81,28 @@ def run_digest(res):
 # ------------------------------------------------------------------- chunks
 def _chunk(args):
     prop, base_seed, indices, deadline, opts = args
-    faulthandler.dump_traceback_later(900, exit=True)
     from .tape import derive_seed
 
     mod = load(prop)
     agg = new_agg()
+    earlier = []  # tapes of the runs executed before, in this (fresh) process
     for idx in indices:
         if time.monotonic() > deadline:
             agg["skipped"] += 1
             continue
         seed = derive_seed(base_seed, prop, idx)
         res = one_run(mod, seed=seed, opts=opts)
+        if res["outcome"] == "violation":
+            res["prelude"] = list(earlier)
         fold(agg, res, idx)
-    faulthandler.cancel_dump_traceback_later()
+        earlier.append(res["tape"])
     return agg
 
 
 def new_agg():
     return {
         "runs": 0,
+        "evaluations": 0,
         "skipped": 0,
         "steps": 0,
         "yields": 0,
@@ -125,7 +125,7 @@ def new_agg():
 def fold(agg, res, idx):
     agg["runs"] += 1
     if res["outcome"] == "violation":
-        agg["violations"].append({"index": idx, **{k: res[k] for k in ("seed", "oracle", "detail", "key", "tape", "trace")}})
+        agg["violations"].append({"index": idx, **{k: res.get(k) for k in ("seed", "oracle", "detail", "key", "tape", "trace", "prelude")}})
         return
     if res["outcome"] == "harness":
         agg["harness"].append({"index": idx, "seed": res["seed"], "error": res["error"], "tb": res["tb"]})
@@ -146,17 +146,25 @@ def fold(agg, res, idx):
         agg["states"] |= res.get("states", set())
     if res.get("interleaving") is not None:
         agg["interleavings"].add(res["interleaving"])
-    case = int(res["tape_digest"], 16)
-    agg["cases"].add(case)
-    if res.get("nontrivial", True):
-        agg["nontrivial_cases"].add(case)
+    if res.get("case_sets") is not None:
+        # the property counts finer-grained cases than "one tape" (e.g. one load operation)
+        cases, nontrivial = res["case_sets"]
+        agg["cases"] |= cases
+        agg["nontrivial_cases"] |= nontrivial
+        agg["evaluations"] += res.get("evaluations", len(cases))
+    else:
+        case = int(res["tape_digest"], 16)
+        agg["cases"].add(case)
+        if res.get("nontrivial", True):
+            agg["nontrivial_cases"].add(case)
+        agg["evaluations"] += 1
     if len(agg["samples"]) < 2 and res.get("sample") is not None:
         agg["samples"].append({"index": idx, "seed": res["seed"], "case": res["sample"]})
     agg["digests"][idx] = run_digest(res)
 
 
 def merge(a, b):
-    for k in ("runs", "skipped", "steps", "yields"):
+    for k in ("runs", "evaluations", "skipped", "steps", "yields"):
         a[k] += b[k]
     for k in ("fired", "probes", "ops", "extra"):
         for kk, v in b[k].items():
@@ -172,6 +180,8 @@ def merge(a, b):
 
 
 def batch(prop, base_seed, n_runs, wall, workers, opts=None, chunk=None, stop_on_violation=True):
+    from .farm import JobFailed, farm
+
     chunk = chunk or max(1, min(25, n_runs // (workers * 4) or 1))
     deadline = time.monotonic() + wall
     jobs = [
@@ -179,26 +189,15 @@ def batch(prop, base_seed, n_runs, wall, workers, opts=None, chunk=None, stop_on
         for i in range(0, n_runs, chunk)
     ]
     agg = new_agg()
-    if workers <= 1:
-        for j in jobs:
-            merge(agg, _chunk(j))
-            if stop_on_violation and (agg["violations"] or agg["harness"]):
-                break
-        return agg
-    ctx = multiprocessing.get_context("fork")
-    with ProcessPoolExecutor(max_workers=workers, mp_context=ctx) as pool:
-        futs = [pool.submit(_chunk, j) for j in jobs]
-        try:
-            for f in as_completed(futs, timeout=wall + 600):
-                merge(agg, f.result())
-                if stop_on_violation and (agg["violations"] or agg["harness"]):
-                    for g in futs:
-                        g.cancel()
-                    break
-        except Exception as e:  # noqa: B902 - broken pool / timeout: harness error
-            agg["harness"].append({"index": -1, "seed": None, "error": f"pool: {type(e).__name__}: {e}", "tb": traceback.format_exc()})
-            for g in futs:
-                g.cancel()
+
+    def stop():
+        return stop_on_violation and bool(agg["violations"] or agg["harness"])
+
+    for i, res in farm(_chunk, jobs, max(workers, 1), timeout=900, stop=stop):
+        if isinstance(res, JobFailed):
+            agg["harness"].append({"index": jobs[i][2][0], "seed": None, "error": f"worker process failed on runs {jobs[i][2][0]}..{jobs[i][2][-1]}", "tb": str(res)})
+        else:
+            merge(agg, res)
     return agg
 
 
@@ -221,26 +220,41 @@ def known_match(prop, v, known):
 
 
 def write_replay(prop, mod, v, base_seed):
-    from .shrink import attempt, shrink
+    from .shrink import attempt, shrink, shrink_prelude
 
-    tape, runs, ok = shrink(lambda t: mod.run(t, {}), v["tape"], v["oracle"])
-    oracle, t2, viol = attempt(lambda t: mod.run(t, {}), tape)
+    def run(t):
+        return mod.run(t, {})
+
+    prelude = []
+    first = attempt(run, v["tape"])
+    if first["oracle"] == v["oracle"]:
+        tape, runs, ok = shrink(run, v["tape"], v["oracle"])
+    else:
+        # not reproducible on its own: it depends on what earlier runs left behind in the process
+        prelude, ok = shrink_prelude(run, v.get("prelude") or [], v["tape"], v["oracle"])
+        tape, runs = v["tape"], 0
+        if ok:
+            tape, runs, ok = shrink(run, v["tape"], v["oracle"], prelude=prelude)
+    final = attempt(run, tape, prelude)
     os.makedirs(os.path.join(VERIF, "replays"), exist_ok=True)
     path = os.path.join(VERIF, "replays", f"{prop}-{v['seed']}.json")
+    reproduces = final["oracle"] == v["oracle"]
     doc = {
         "property": prop,
         "verif_seed": base_seed,
         "run_index": v["index"],
         "run_seed": v["seed"],
-        "oracle": oracle or v["oracle"],
-        "detail": str(viol.detail) if viol is not None else v["detail"],
+        "oracle": v["oracle"],
+        "detail": final["detail"] if reproduces else v["detail"],
         "key": v.get("key"),
+        "prelude": prelude,
+        "prelude_note": "tapes of earlier runs that must execute first in the same process (the violation depends on state they leave behind)" if prelude else None,
         "tape": tape,
-        "tape_decoded": t2.decoded(),
+        "tape_decoded": final["decoded"],
         "original_tape_length": len(v["tape"]),
         "shrink_runs": runs,
-        "shrunk_reproduces": bool(ok and oracle == v["oracle"]),
-        "trace": getattr(viol, "trace", None) if viol is not None else v.get("trace"),
+        "reproduces_in_fresh_process": reproduces,
+        "trace": final["trace"] if reproduces else v.get("trace"),
         "replay_cmd": f"bin/check {prop} --replay {path}",
     }
     with open(path, "w") as f:
@@ -249,9 +263,16 @@ def write_replay(prop, mod, v, base_seed):
 
 
 def do_replay(prop, path):
+    from .tape import Tape
+
     mod = load(prop)
     with open(path) as f:
         doc = json.load(f)
+    for p in doc.get("prelude") or []:
+        try:
+            mod.run(Tape(replay=p), {})
+        except Exception:  # noqa: B902 - only the state it leaves behind matters
+            pass
     res = one_run(mod, replay=doc["tape"])
     if res["outcome"] == "violation":
         same = res["oracle"] == doc["oracle"]
@@ -271,7 +292,8 @@ def do_replay(prop, path):
 def write_evidence(prop, mod, tier, base_seed, agg, wall_s, n_known, planned):
     runs_ok = agg["runs"] - len(agg["violations"]) - len(agg["harness"])
     cov = {
-        "evaluations": agg["runs"],
+        "evaluations": max(agg["evaluations"], 1),
+        "simulated_runs": agg["runs"],
         "distinct_nontrivial": len(agg["nontrivial_cases"]),
         "rule": mod.RULE,
         "samples": agg["samples"][:6],
